@@ -119,7 +119,7 @@ def float_part(args):
     return (True, f"{args}: accesses {bad[:3]}") if bad else (False, f"all {len(log)} accesses inside the vector")
 
 
-REPLAYERS = {"part": float_part, "compiled": nbmodel.replay_compiled}
+REPLAYERS = {"frozen": nbmodel.replay_frozen, "part": float_part, "compiled": nbmodel.replay_compiled}
 
 
 def report_events(chk, events, where):
@@ -211,6 +211,26 @@ def _run(chk, only, static):
         for f in bad:
             chk.report(f"nb:sig:{key[0].split('.')[-1]}.{key[1]}", f"{key[0]}.{key[1]}: {f['detail']}", "compiled",
                        dict(module=key[0], func=key[1], args=[], static=True, sig=[info["sig"][0], info["sig"][1]] if info["sig"] else None, detail=f["detail"]))
+    # ---- typed semantics: module-level names the kernels read are compile-time constants; nothing in the tree may rebind them ----
+    if only in (None, "frozen"):
+        frozen = nbmodel.frozen_globals()
+        writers = nbmodel.global_writers(frozen)
+        chk.section("frozen_globals", names=len(frozen), kernels_reading_one=len({k for v in frozen.values() for k in v}),
+                    writers_found=len(writers), examples=[f"{m}.{a}" for m, a in sorted(frozen)][:8])
+        for name in sorted(frozen):
+            chk.obligations += 1
+            ws = [w for w in writers if tuple(name) in [tuple(n) for n in w["names"]]]
+            if not ws:
+                chk.discharged += 1
+            for w in ws:
+                kern = next((k for k in frozen[name] if nbmodel.INFO.get(k, {}).get("sig") and nbmodel.INFO[k]["sig"][1] == ["f8", "f8[:]"]), frozen[name][0])
+                sig = nbmodel.INFO.get(kern, {}).get("sig") or ["f8", ["f8", "f8[:]"]]
+                kargs = [0.37 if t in ("f8", "f4") else ([4.0, 4.0, 1.0, 1.0] if t.endswith("[:]") else 4) for t in sig[1]]
+                chk.report(f"nb:frozen:{name[0].split('.')[-1]}.{name[1]}",
+                           f"{w['file']}:{w['line']}: {w['how']}: {name[0]}.{name[1]} is a compile-time constant of {len(frozen[name])} compiled kernel(s) "
+                           f"(e.g. {kern[0]}.{kern[1]}) but is read afresh by the interpreter", "frozen",
+                           dict(module=kern[0], func=kern[1], args=kargs, name=list(name), call=list(w["call"]) if w["call"] else None,
+                                how=w["how"], file=w["file"], line=w["line"]))
     if only in (None, "special"):
         run_special(chk)
     if only == "special":
